@@ -202,3 +202,27 @@ func SortSliceModel(n int, less func(i, j int) bool, swap func(i, j int)) {
 		}
 	}
 }
+
+// ---- scheduling / stubbing controls (meaningful only under the symbolic executor)
+
+// Yield marks a point at which another goroutine may be scheduled (budgeted by SchedBound).
+func Yield() {}
+
+// SchedBound sets the number of voluntary context switches explored per path.
+func SchedBound(n int) {}
+
+// PreemptSync makes every synchronisation operation (lock, channel op, select) a voluntary switch point.
+func PreemptSync() {}
+
+// AllowMainBlock: a blocked calling goroutine with nothing else runnable just ends the path (no deadlock report).
+func AllowMainBlock() {}
+
+// Goroutines returns the number of live goroutines (excluding unfired timers).
+func Goroutines() int { return 1 }
+
+// IsReleasedPtr reports whether the pooled object p points to has been put back into its pool (ghost state).
+func IsReleasedPtr(p any) bool { return false }
+
+// Redirect replaces calls of the named function (fully qualified, as printed by go/ssa) by fn, which must
+// have the same signature (receiver first). Model-level only: natively a no-op.
+func Redirect(name string, fn any) {}
